@@ -96,8 +96,11 @@ CHECKS += [
          "(spec function H) IS part of this check: create_event_id_to_child_nodes_map and compute_graph_hash_from_event_ids are proved to compute "
          "H(n) = xxh(type(n) ++ join(sorted([H(c) | c child of n]))) over the parent links, compute_graph_hashes_from_root_nodes / compute_graph_hashes_for_batch write one row per root, and the batch walk of "
          "find_unique_graphs (a `while True` loop over get_root_nodes slices) hashes every root of the window exactly once for every batch size >= 1 "
-         "(31 clauses, all inputs; ghost root table / job_hashes rows, trusted contracts for the SQL primitives; termination not proved). Lemmas L1/L2 "
-         "about H are not stated; the GROUP BY selection is trusted SQL, checked only by the bounded part.",
+         "and get_unique_graph_job_ids_per_job_name regroups the representatives of the (name, hash) groups into name -> set of trace ids, so that "
+         "find_unique_graphs returns, per workflow name, exactly one trace id of every hash class among the rows just written, never two of one class, "
+         "and only hashed traces (44 clauses, all inputs; ghost root table / job_hashes rows, trusted contracts for the SQL primitives - the GROUP BY "
+         "itself is a trusted ghost effect: the fetched rows are representatives of the groups; termination not proved). Lemmas L1/L2 about H "
+         "(hash class = shape class) are not stated: they would need collision freedom, which D6 refutes.",
          "Bounded exploration on real sqlite; oracle = canonical shapes from the abstract view. One known finding (hash input without separator, D6) is "
          "listed in KNOWN_FINDINGS.txt and printed as KNOWN-FINDING.", "DESIGN.md 4/C09"),
     bchk("C10", "BOUNDED, exhaustive in its stated bound (never counted as proved). Whole-view postcondition of ingestion - nodes == first occurrence per "
